@@ -55,6 +55,8 @@ reg("C03",
     "a seed, pairwise disjoint, covering the subset) and the loop number is the cyclomatic number: loops + touched vertices = "
     "edges + components, for every duplicate-free list of valid edge ids (tree bound by induction over the search rounds). "
     "Correspondence: every multigraph with <=3/4 edges on 4 vertex slots, all subsets; union-find/Fraction oracle; at alpha:=R genDod_step (C03Step.lean): omega(g) - omega(g minus e) = w_e - (loop drop) D/2 - dod (spanning lost), the premise of the sector density; "
+    "monotonicity along a removal (LoopStep.lean, C03Mono.lean): removing an edge lowers the loop number by 0 or 1 (loopNumber_erase: connectivity classes counted on both sides, "
+    "componentLists_length: the search returns one list per class) and never gains the spanning flag (spanT_mono), for the table of every input graph (removalFacts_fromGraph); "
     "also chains of 10..12 edges, 17 components, >= 64 externals, signatures of any shape through the public getters, bit-exact table vs the model.",
     "Hash sets modelled as duplicate-free lists (only membership/cardinality is used); f64 rounding of generalized_dod measured against exact rationals.",
     "Lean 4 law-free theorems + exhaustive small-graph correspondence + union-find/Fraction oracle",
@@ -103,13 +105,15 @@ reg("C01",
     "(= prod omega_k x^(nu-1)/(U_tr^(D/2) V_tr^dod) when omega_k - omega_(k+1) = nu_k - D/2 dL_k - dod dS_k), sector_density_times_prob, sector_expectation, tropical_sampling (for ANY "
     "test functions the expectation over all E! removal orders - probabilities C04.orderProb - and the uniform numbers equals the sum over the sectors of the integrals against "
     "x^(nu-1)/(U_tr^(D/2) V_tr^dod)/I_tr); C01Table.lean: consistent_along and tropical_sampling_table - the same for the MODEL'S OWN TABLE (omega, loop numbers, spanning flags, weights = "
-    "preEntry, what generate_from_tropical stores), with 'Consistent' PROVED from C03.genDod_step and C03Mono.spanT_mono (removing an edge never gains the spanning flag). "
+    "preEntry, what generate_from_tropical stores), with 'Consistent' PROVED from C03.genDod_step, C03Mono.spanT_mono (removing an edge never gains the spanning flag) and "
+    "loopNumber_erase / loopsT_step (Proofs/LoopStep.lean: a removal lowers the loop number by 0 or 1, by counting connectivity classes on both sides with the cyclomatic identity); "
+    "tropical_sampling_model is the statement with NO graph fact assumed (removalFacts_fromGraph: both facts hold for the table of every input graph). "
     "Tie to the code: end-to-end correspondence of `sample` (model vs implementation) on multi-loop/massive/non-trivial routings, normalisation oracle (40 digits), rng-entry agreement; "
     "supporting fixed-seed Monte Carlo against closed forms (tadpole, bubble, two-tadpole product under two routings; mean of jacobian*g = (pi/alpha)^(DL/2) for triangle, sunrise k1+-k2, "
     "double triangle, banana).",
     "Cited, not formalised: Schwinger parametrisation (momentum integral = parametric integral) and that U_tr, V_tr are the MAXIMAL monomials of U and F/U (greedy optimality, C07). "
-    "One graph fact remains a hypothesis of tropical_sampling_table: a removal lowers the loop number by 0 or 1 (checked on the implementation's flags for every subset of every small "
-    "multigraph in the C03 check). Exactness of the Gamma quantile is numerical (C12). Monte Carlo is a statistical supporting test (6 sigma + 0.5%), not a proof.",
+    "Both removal facts (loop number drops by 0 or 1, spanning never gained) are theorems of the model and are also checked on the implementation's flags for every subset of every small "
+    "multigraph in the C03 check. Exactness of the Gamma quantile is numerical (C12). Monte Carlo is a statistical supporting test (6 sigma + 0.5%), not a proof.",
     "Lean 4 theorems (partial for the property as a whole) + differential correspondence + exact/40-digit oracles + closed-form Monte Carlo support",
     "DESIGN.md §8.3 C01")
 
